@@ -110,9 +110,14 @@ Definition esc_image_cases_stmt : Prop :=
      if (c =? c_b)%N then (if pe then [92; 120; 48; 56]%N else [92; 98]%N)
      else if is_meta_character c || lex_esc_literal (c :: rest) then [c_bsl; c] else [c]).
 
-(* the flag off (or the repair not applied): the parser does not depend on the repair / the flag *)
+(* with the flag off the white-space repair changes nothing: the parser with and without it
+   (whatever the other repairs) returns the same result on every text *)
+Definition with_iw (b : bool) (fx : fixes) : fixes :=
+  {| fix_header := fix_header fx; fix_target_span := fix_target_span fx;
+     fix_prefix_unescape := fix_prefix_unescape fx; fix_dangling := fix_dangling fx; fix_iw := b |}.
 Definition iw_off_irrelevant_stmt : Prop :=
-  forall fixd pe re, unescape_gen fixd (true && false) re pe = unescape_gen fixd (false && true) re pe.
+  forall fx b src pos awc pe re_bad,
+    lex_from_str (with_iw b fx) src pos awc pe false re_bad = lex_from_str fx src pos awc pe false re_bad.
 
 (* ---- trailing white space ------------------------------------------------------ *)
 
